@@ -37,19 +37,22 @@ from ..realise import puritydocs as PD  # noqa: E402
 SPEC = os.path.join(SPECS, "purity", "MC_Purity.tla")
 TRACE_SPEC = os.path.join(SPECS, "purity", "PurityTrace.tla")
 ADDRESS_DEVS = ("InlineNameIsAddress", "TieBreakByAddress")
-DANGEROUS = ["EncodingNoCopy", "EncodingLazyCopy", "ColorSpaceNoCopy", "InitResourcesEarlyReturn", "ObjStmSiblingsCached", "ContentsArrayConsumed", "UseCMapAlias", "UMapKeyCoarse", "SharedManager", "DecipherTwice",
+DANGEROUS = ["EncodingNoCopy", "EncodingLazyCopy", "ColorSpaceNoCopy", "InitResourcesEarlyReturn", "ObjStmSiblingsCached", "ContentsArrayConsumed", "BuiltinEncodingAssigned", "DirectFontInheritsObjId", "UseCMapAlias", "UMapKeyCoarse", "SharedManager", "DecipherTwice",
              "DescendantNoCopy", "InlineNameIsAddress", "TieBreakByAddress"]
 # the smallest pool / number of calls in which each dangerous alternative breaks Functional
-REFUTE_IN = {"EncodingNoCopy": ('{"dA", "dB"}', 2), "EncodingLazyCopy": ('{"dA", "dB"}', 2), "InitResourcesEarlyReturn": ('{"dB"}', 1), "ObjStmSiblingsCached": ('{"dA"}', 1), "ContentsArrayConsumed": ('{"dC"}', 1), "ColorSpaceNoCopy": ('{"dA", "dC"}', 2), "UseCMapAlias": ('{"dA"}', 2),
+REFUTE_IN = {"EncodingNoCopy": ('{"dA", "dB"}', 2), "EncodingLazyCopy": ('{"dA", "dB"}', 2), "InitResourcesEarlyReturn": ('{"dB"}', 1), "ObjStmSiblingsCached": ('{"dA"}', 1), "ContentsArrayConsumed": ('{"dC"}', 1), "BuiltinEncodingAssigned": ('{"dB", "dC"}', 2),
+             "DirectFontInheritsObjId": ('{"dA"}', 1), "ColorSpaceNoCopy": ('{"dA", "dC"}', 2), "UseCMapAlias": ('{"dA"}', 2),
              "UMapKeyCoarse": ('{"dA", "dB"}', 2), "SharedManager": ('{"dA", "dB"}', 2), "DecipherTwice": ('{"dC"}', 1),
              "DescendantNoCopy": ('{"dA"}', 1), "InlineNameIsAddress": ('{"dA"}', 1), "TieBreakByAddress": ('{"dB"}', 1)}
 ACTIONS = ["Open", "Extract", "Next", "Close", "UseCMap", "ADocOpen", "APageStart", "AInitResources", "AInitColorSpacesCopy", "AFontCacheHit",
            "AFontMiss", "AObjStmParse", "AObjDirectParse", "AGetFontSpec", "AGetObjParsed", "ADecipherAllInPlace", "ACopyDescendantSpec", "AGetEncodingShared",
            "AGetEncodingCopyOnWrite", "ADifferencesAssign", "ADifferencesPop", "AParseToUnicode", "ACMapCacheFill", "ACMapCacheHit", "AUMapCacheFill",
-           "AUMapCacheHit", "AResolveAllInPlace", "AFontCacheFill", "AExecuteContents", "ARender", "AUseCMapCopy", "AAddCode2Cid"]
+           "AUMapCacheHit", "AResolveAllInPlace", "ABuiltinEncoding", "AFontCacheFill", "AExecuteContents", "ARender", "AUseCMapCopy", "AAddCode2Cid"]
 INVARIANTS = ["CacheKeySound", "CMapCacheSound", "DecipheredOnce", "ObjCacheNewest", "CachedObjectsAsParsed", "ClientOwnsItsTable"]
 PROPERTIES = ["SharedTablesImmutable", "CachesAppendOnly"]
 KINDS = OBS.KINDS
+# short TLC runs (refutations, coverage, trace validation) spend most of their CPU in JIT warm-up: C1 only
+SMALL_JVM = {"JAVA_TOOL_OPTIONS": "-XX:TieredStopAtLevel=1 -XX:CICompilerCount=1 -XX:ParallelGCThreads=2"}
 
 # ------------------------------------------------------------------------------------------------ masks / classification
 _ADDR = re.compile(r"^\d{6,}$")
@@ -187,7 +190,7 @@ def tlc_jobs(ck, dev):
     def verify(label, coverage=False, **kw):
         cfg = write_cfg(os.path.join(ck.tmp, "c12_%s.cfg" % label), constants=base_constants(dev, **kw), next="Next0",
                         invariants=[functional] + INVARIANTS, properties=PROPERTIES)
-        return run_tlc(SPEC, cfg, coverage=coverage, workers=6, timeout=7200)
+        return run_tlc(SPEC, cfg, coverage=coverage, workers=6, timeout=7200, env=SMALL_JVM if coverage else None)
 
     # vacuity: every action taken, on a small configuration (coverage statistics are expensive)
     jobs["coverage"] = pool.submit(verify, "coverage", True, PageSets="<- BothPages", EarlyClose="FALSE")
@@ -202,7 +205,7 @@ def tlc_jobs(ck, dev):
                         constants=base_constants([d], Docs=docs, MaxCalls=calls, MaxLive=1, Cachings="{TRUE}", PageSets="<- BothPages",
                                                  EarlyClose="FALSE", ClientCalls="TRUE" if d == "UseCMapAlias" else "FALSE"),
                         next="Next0", invariants=["Functional"])
-        return run_tlc(SPEC, cfg, workers=1, timeout=3600)
+        return run_tlc(SPEC, cfg, workers=1, timeout=3600, env=SMALL_JVM)
     for d in DANGEROUS:
         jobs["dev:" + d] = pool.submit(refute, d)
 
@@ -538,6 +541,45 @@ def differences_doc(base, diffs):
     return simple_doc([b"BT /F1 12 Tf 72 700 Td (ABC abc) Tj ET"], fonts={"F1": f})[0]
 
 
+def type1_program_doc(variant):
+    """a non-standard-14 Type 1 font WITHOUT /Encoding whose embedded program header gives the built-in encoding:
+    'std-def'  /Encoding StandardEncoding def, then dup 65 /X put  dup 66 /Y put  (re-assigns codes of the standard table)
+    'array'    /Encoding 256 array ... dup 65 /X put  dup 66 /Y put
+    'plain'    no font program at all: the shared StandardEncoding table applies as it is"""
+    from ..realise.fontpdf import fontfile_stream, type1_header
+    from ..realise.pdfwriter import Ref, simple_doc
+    font = {"Type": PD.Name("Font"), "Subtype": PD.Name("Type1"), "BaseFont": PD.Name("VerifSerif"), "FirstChar": 65, "LastChar": 67,
+            "Widths": [500, 600, 700], "FontDescriptor": Ref(40)}
+    desc = {"Type": PD.Name("FontDescriptor"), "FontName": PD.Name("VerifSerif"), "Flags": 32, "FontBBox": [0, -200, 1000, 800],
+            "ItalicAngle": 0, "Ascent": 800, "Descent": -200, "CapHeight": 700, "StemV": 80}
+    extra = {40: desc}
+    if variant != "plain":
+        desc["FontFile"] = Ref(41)
+        extra[41] = fontfile_stream(type1_header([(65, "X"), (66, "Y")], fontname="VerifSerif", standard=(variant == "std-def")))
+    return simple_doc([b"BT /F1 12 Tf 72 700 Td (ABC) Tj ET"], fonts={"F1": font}, extra_objects=extra)[0]
+
+
+def mixed_font_dict_doc(order, in_form):
+    """/Font dictionaries that mix indirect and direct entries (order 'indirect-first' | 'direct-first'); the two fonts differ in
+    encoding (Differences) and widths; with in_form the dictionary is the /Resources of a form XObject the page paints"""
+    from ..realise.pdfwriter import Ref, Stream, simple_doc
+    def font(widths, diffs):
+        return {"Type": PD.Name("Font"), "Subtype": PD.Name("TrueType"), "BaseFont": PD.Name("VerifSans"), "FirstChar": 65, "LastChar": 66,
+                "Widths": list(widths), "FontDescriptor": Ref(40),
+                "Encoding": {"Type": PD.Name("Encoding"), "BaseEncoding": PD.Name("WinAnsiEncoding"), "Differences": diffs}}
+    desc = {"Type": PD.Name("FontDescriptor"), "FontName": PD.Name("VerifSans"), "Flags": 32, "FontBBox": [0, -200, 1000, 800],
+            "ItalicAngle": 0, "Ascent": 800, "Descent": -200, "CapHeight": 700, "StemV": 80}
+    ind = font((500, 600), [65, PD.Name("Omega")])
+    dire = font((900, 300), [66, PD.Name("Delta")])
+    extra = {40: desc, 41: ind}
+    fonts = {"Fi": Ref(41), "Fd": dire} if order == "indirect-first" else {"Fd": dire, "Fi": Ref(41)}
+    text = b"BT /Fi 10 Tf 1 0 0 1 50 700 Tm (AB) Tj /Fd 10 Tf 1 0 0 1 50 600 Tm (AB) Tj ET"
+    if not in_form:
+        return simple_doc([text, text], fonts=fonts, extra_objects=extra)[0]
+    extra[42] = Stream({"Type": PD.Name("XObject"), "Subtype": PD.Name("Form"), "BBox": [0, 0, 612, 792], "Resources": {"Font": fonts}}, text)
+    return simple_doc([b"/Fm1 Do", b"/Fm1 Do"], fonts={}, xobjects={"Fm1": Ref(42)}, extra_objects=extra)[0]
+
+
 def std14_doc(widths):
     """a standard-14 font (metrics come from the shared FONT_METRICS table) that also carries its own /Widths"""
     from ..realise.pdfwriter import simple_doc, type1_font
@@ -558,6 +600,11 @@ def generated_corpus(docs):
         out["generated:diff-pop-only:" + base] = differences_doc(base, [97, N("g77")])
         out["generated:diff-same-then-pop:" + base] = differences_doc(base, [67, N("C"), 99, N("g88")])
         out["generated:diff-none:" + base] = differences_doc(base, [])
+    for v in ("std-def", "array", "plain"):
+        out["generated:t1-" + v] = type1_program_doc(v)
+    for order in ("indirect-first", "direct-first"):
+        out["generated:mix-%s" % order] = mixed_font_dict_doc(order, False)
+        out["generated:mix-form-%s" % order] = mixed_font_dict_doc(order, True)
     return out
 
 
@@ -596,7 +643,7 @@ def plan_history(rng, corpus, per_doc):
     # the pool documents (shared indirect /Contents, /Resources, /Font, forms; object stream + update) always get a call
     # with caching on over all pages and one with caching off
     for label in corpus:
-        if label.startswith("generated:d"):
+        if label.startswith(("generated:dA", "generated:dB", "generated:dC", "generated:mix", "generated:t1")):
             calls.append((label, rng.choice(KINDS), True, None))
             calls.append((label, rng.choice(KINDS), False, None))
     rng.shuffle(calls)
@@ -749,7 +796,7 @@ def run_trace_tlc(ck, view, dev, label):
     tf = os.path.join(ck.tmp, "c12_traces_%s.json" % label)
     json.dump(view, open(tf, "w"))
     cfg = write_cfg(os.path.join(ck.tmp, "c12_trace.cfg"), constants={"Dev": tla_set(dev) if dev else "{}"}, spec="Spec", deadlock=True)
-    res = run_tlc(TRACE_SPEC, cfg, workers=1, env={"TRACE_FILE": tf}, timeout=3600)
+    res = run_tlc(TRACE_SPEC, cfg, workers=1, env=dict(SMALL_JVM, TRACE_FILE=tf), timeout=3600)
     if not res.ok and (res.violated != "deadlock" or not res.error_trace):
         raise MachineryError("trace validation failed unexpectedly: " + res.error_text[:2000])
     return res
